@@ -282,6 +282,14 @@ func (c *Conn) readCommand(dec *imapwire.Decoder) error {
 
 	dec.DiscardLine()
 
+	if dec.UnreadNonSyncLiteral() && c.state != imap.ConnStateLogout {
+		// A non-synchronizing literal has been refused: its payload is
+		// already on its way and must not be parsed as commands. Reply, then
+		// close the connection (RFC 7888 section 4).
+		c.state = imap.ConnStateLogout
+		defer c.Bye("Non-synchronizing literal refused")
+	}
+
 	var (
 		resp    *imap.StatusResponse
 		imapErr *imap.Error
